@@ -5,6 +5,9 @@ id="$1"; sfx="${2:-}"; wt=/tmp/wt-$id$sfx; src=/tmp/seeded/$id$sfx; dst=/verif/s
 log=/tmp/seeded/$id$sfx/confirm.log
 cd $wt || exit 3
 export CARGO_NET_OFFLINE=true
+# the stash is shared between worktrees: never use it; patch.diff is the source of truth
+git checkout -q -- src && git apply $src/patch.diff || { echo "patch.diff does not apply to HEAD"; exit 3; }
+cp $src/seeded_demo.rs tests/seeded_demo.rs
 {
 echo "== existing suite with the change"
 mv tests/seeded_demo.rs /tmp/seeded/$id$sfx/.demo_aside.rs
@@ -15,11 +18,11 @@ echo "existing tests failing with the change: $ex"
 echo "== demo with the change (must fail)"
 cargo test --offline --test seeded_demo 2>&1 | grep -E "^test result|^test .*(ok|FAILED)" ; cargo test --offline --test seeded_demo >/dev/null 2>&1; with=$?
 echo "demo exit with change: $with"
-git stash push -q -- src
+git checkout -q -- src
 echo "== demo without the change (must pass)"
 cargo test --offline --test seeded_demo 2>&1 | grep -E "^test result|^test .*(ok|FAILED)"; cargo test --offline --test seeded_demo >/dev/null 2>&1; without=$?
 echo "demo exit without change: $without"
-git stash pop -q
+git apply $src/patch.diff
 echo "SUMMARY id=$id existing_failing=$ex demo_with=$with demo_without=$without"
 } > $log 2>&1
 if [ "$ex" = "0" ] && [ "$with" != "0" ] && [ "$without" = "0" ]; then
